@@ -44,7 +44,11 @@ def conc(model, v, seen=None):
     if isinstance(v, ListV):
         out = []
         if v.prefix is not None:
-            out.extend(seq_to_list(model, v.prefix))
+            if v.prefix.sort() == z3.StringSort():
+                r = zval(model, v.prefix)
+                out.extend(list(_pystr(r)) if z3.is_string_value(r) else [])
+            elif v.prefix.sort() == z3.SeqSort(z3.StringSort()):
+                out.extend(seq_to_list(model, v.prefix))
         out.extend(conc(model, x, seen) for x in v.items)
         return out
     if isinstance(v, SetV):
